@@ -26,6 +26,8 @@ Record ecase := {
   e_hmacfail : bool;       (* the wrapper is of a kind NewDerivedReader rejects: every HMAC fails *)
   e_payload : payload;
   e_unchanged : bool;      (* deep snapshot of the input event before Process = after Process *)
+  e_snaponly : bool;       (* the configuration uses Filter.IgnoreTypes at positions where the rule applies (outside the model):
+                              only the observation-only oracles on the INPUT (snapshot, panic, event metadata, type) are evaluated *)
   e_obs : obs;
 }.
 
@@ -75,7 +77,7 @@ Definition opt_eqb {A} (eq : A -> A -> bool) (a b : option A) : bool :=
 Fixpoint list_eqb {A} (eq : A -> A -> bool) (a b : list A) : bool :=
   match a, b with [], [] => true | x :: r, y :: r' => eq x y && list_eqb eq r r' | _, _ => false end.
 Definition tkey_eqb (a b : tkey) : bool :=
-  match a, b with TKey k, TKey k' => N.eqb k k' | TNested a1 a2, TNested b1 b2 => N.eqb a1 b1 && N.eqb a2 b2 | _, _ => false end.
+  match a, b with TPath p, TPath q => list_eqb N.eqb p q end.
 Definition mtag_eqb (a b : mtag) : bool := opt_eqb tkey_eqb (fst a) (fst b) && String.eqb (snd a) (snd b).
 Definition stag_eqb (a b : stag) : bool :=
   opt_eqb (fun p q : N * N => N.eqb (fst p) (fst q) && N.eqb (snd p) (snd q)) (fst a) (fst b) && String.eqb (snd a) (snd b).
@@ -261,7 +263,7 @@ Definition cfg_of (e : ecase) : cfg :=
 
 Definition dedup_kinds (l : list (N * kind)) : list (N * kind) := l.
 
-Definition run_case (e : ecase) : list (N * kind) :=
+Definition run_case_full (e : ecase) : list (N * kind) :=
   let r := process (cfg_of e) (e_ekey e) (e_payload e) in
   (match r, e_obs e with
    | _, ObPanic => [(0%N, KPanic)]
@@ -286,6 +288,15 @@ Definition run_case (e : ecase) : list (N * kind) :=
               then [(root_shape (e_payload e), KSpecShape)] else [])
       | _, _ => []
       end).
+
+Definition run_case (e : ecase) : list (N * kind) :=
+  if e_snaponly e then
+    (match e_obs e with
+     | ObPanic => [(0%N, KPanic)]
+     | ObOut _ fl => (if of_sametype fl then [] else [(0%N, KType)]) ++ (if of_meta fl then [] else [(0%N, KMeta)])
+     | _ => []
+     end) ++ (if e_unchanged e then [] else [(0%N, KMutated)])
+  else run_case_full e.
 
 Definition mismatches (cs : list ecase) : list (N * (N * N * kind)) :=
   flat_map (fun e => map (fun m => (e_id e, (fst m, e_class e, snd m))) (run_case e)) cs.
